@@ -116,8 +116,9 @@ type usagePair struct {
 
 // updateUsageQueue zeroes the accumulated usage all ActiveUsers valve and put the usage data im usageUpdateQueue
 func (panel *userPanel) updateUsageQueue() {
-	panel.activeUsersM.Lock()
+	// lock order: usageUpdateQueueM before activeUsersM, the same as commitUpdate
 	panel.usageUpdateQueueM.Lock()
+	panel.activeUsersM.Lock()
 	for _, user := range panel.activeUsers {
 		if user.bypass {
 			continue
